@@ -1,0 +1,118 @@
+//go:build verif
+
+package derive
+
+import (
+	"encoding/json"
+	"go/types"
+	"os"
+	"sort"
+)
+
+// Verification hooks (build tag verif). Each call appends one JSON line to the
+// file named by GODERIVE_VERIF_TRACE; without that variable they do nothing.
+
+var vseq int
+
+func vtrace(ev string, kv map[string]interface{}) {
+	fname := os.Getenv("GODERIVE_VERIF_TRACE")
+	if fname == "" {
+		return
+	}
+	vseq++
+	if kv == nil {
+		kv = map[string]interface{}{}
+	}
+	kv["ev"] = ev
+	kv["seq"] = vseq
+	data, err := json.Marshal(kv)
+	if err != nil {
+		data = []byte(`{"ev":"MarshalError"}`)
+	}
+	f, err := os.OpenFile(fname, os.O_APPEND|os.O_CREATE|os.O_WRONLY, 0644)
+	if err != nil {
+		return
+	}
+	f.Write(append(data, '\n'))
+	f.Close()
+}
+
+func verr(err error) string {
+	if err == nil {
+		return ""
+	}
+	return err.Error()
+}
+
+func vkey(typs []types.Type) []string {
+	ss := make([]string, len(typs))
+	for i, t := range typs {
+		if t == nil {
+			ss[i] = "<nil>"
+			continue
+		}
+		ss[i] = types.TypeString(types.Default(t), nil)
+	}
+	return ss
+}
+
+// vmatches lists every registered name whose types are eq to typs (what nameOf may return).
+func vmatches(tm *typesMap, typs []types.Type) []string {
+	ms := []string{}
+	for name, ts := range tm.funcToTyps {
+		if eq(typs, ts) {
+			ms = append(ms, name)
+		}
+	}
+	sort.Strings(ms)
+	return ms
+}
+
+func vhad(tm *typesMap, name string) interface{} {
+	if ts, ok := tm.funcToTyps[name]; ok {
+		return vkey(ts)
+	}
+	return nil
+}
+
+func vset(m map[string]struct{}) []string {
+	ss := make([]string, 0, len(m))
+	for s := range m {
+		ss = append(ss, s)
+	}
+	sort.Strings(ss)
+	return ss
+}
+
+func vcalls(cs []*call) []interface{} {
+	out := make([]interface{}, len(cs))
+	for i, c := range cs {
+		out[i] = map[string]interface{}{"name": c.Name, "key": vkey(c.Args), "undef": c.HasUndefined()}
+	}
+	return out
+}
+
+func vfiles(fileInfos []*fileInfo) []interface{} {
+	out := make([]interface{}, len(fileInfos))
+	for i, fi := range fileInfos {
+		out[i] = map[string]interface{}{
+			"file":      fi.fullpath,
+			"undefined": vcalls(fi.undefined),
+			"derived":   vcalls(fi.derived),
+			"funcNames": vset(fi.funcNames),
+		}
+	}
+	return out
+}
+
+func vplugins(ps []Plugin) []interface{} {
+	out := make([]interface{}, len(ps))
+	for i, p := range ps {
+		out[i] = map[string]interface{}{"name": p.Name(), "prefix": p.GetPrefix()}
+	}
+	return out
+}
+
+type vm = map[string]interface{}
+
+const vOn = true
